@@ -35,8 +35,9 @@ def run_serializer(rec, rnd, cycles, case):
                 rec.count("histories_with_rival_callers")
             top = ModuleConnector(circ=circ, req=req, resp=resp, **({"rivals": rv} if rv is not None else {}))
             sim = PysimSimulator(top, max_cycles=cycles + 60)
-            from .. import txsan
+            from .. import txsan, passive
             txsan.maybe_attach(sim, case)
+            passive.maybe_attach(sim, case)
         except Exception:
             rec.check("constructs", False, case=case, detail=traceback.format_exc()[-1200:])
             return
@@ -148,6 +149,9 @@ def run_zipper(rec, rnd, cycles, case):
         dut = ArgumentsToResultsZipper([("a", 16)], [("r", 16)])
         circ = SimpleTestCircuit(dut)
         sim = PysimSimulator(circ, max_cycles=cycles + 40)
+        from .. import txsan, passive
+        txsan.maybe_attach(sim, case)
+        passive.maybe_attach(sim, case)
 
         async def drv(ctx):
             trig = ctx.tick().sample(circ.write_args.adapter.done, circ.write_results.adapter.done, circ.read.adapter.done, circ.read.adapter.data_out,
